@@ -50,6 +50,7 @@ Definition check_ranges (c : list string * res bounds) : bool :=
 Definition check_int (c : string * option Z) : bool :=
   option_eqb Z.eqb (py_int (fst c)) (snd c).
 Definition check_float_lit (c : string * bool) : bool := Bool.eqb (float_lit (fst c)) (snd c).
+Definition check_num_lit (c : string * bool) : bool := Bool.eqb (num_lit (fst c)) (snd c).
 
 (* (b) surfaces: mnemonic, number of parameters -> counts or exception *)
 Definition check_surface (c : (string * list float) * res (nat * nat)) : bool :=
